@@ -41,6 +41,7 @@ JudgeMap(m) ==
   ELSE IF ~m.line_exists THEN "the mapped line does not exist"
   ELSE IF m.kind # m.t_kind /\ ~(m.kind = "text" /\ m.t_kind = "choice") THEN "a " \o m.kind \o " mapping targets a " \o m.t_kind \o " field"
   ELSE IF m.label # "" /\ m.lineno # "" /\ m.label # m.lineno /\ ~m.excused THEN "the template labels this box line " \o m.label \o " but it is filled from line " \o m.lineno
+  ELSE IF m.row > 0 /\ m.idx >= 0 /\ m.idx # m.row - 1 THEN "the template puts this box in row " \o ToString(m.row) \o " of a table but it is filled from the line of entry " \o ToString(m.idx + 1)
   ELSE IF m.kind = "button" /\ m.truev \notin SeqToSet(m.t_on) THEN "check-box export value " \o m.truev \o " is not one the template offers"
   ELSE IF m.kind = "text" /\ m.t_max >= 0 /\ m.maxlen # m.t_max THEN "length limit " \o ToString(m.maxlen) \o " differs from the template's " \o ToString(m.t_max)
   ELSE IF m.kind = "choice" /\ m.t_opts # <<>> /\ ~(SeqToSet(m.choices) \subseteq SeqToSet(m.t_opts)) THEN "choice list offers values the template does not have"
